@@ -87,11 +87,36 @@ def handle (op : String) (args : List String) (rhs : String) : Verdict :=
     | some p, some r, some k, some c => withPrime p (.unsupported "p=0") fun q =>
       match parseMat (p := q) r k as, parseMat (p := q) k c bs with
       | some a, some b =>
-        let prod : Mat (Fp q) := if k = 0 then List.replicate r (List.replicate c 0) else
-          a.map fun row => (List.range c).map fun j => dot row (b.map fun br => br.getD j 0)
+        -- `LinAlg.mul` (the definition `Props.C20.mul_eq` / `mul_assoc` are about) reads the column count
+        -- off the first row of `b`; the Go constructors admit no 0-dimensional matrices
+        let prod : Mat (Fp q) := if k = 0 ∨ c = 0 then List.replicate r (List.replicate c 0) else mul a b
         spec "mul" (renderMat prod) rhs
       | _, _ => .unsupported "matrix"
     | _, _, _, _ => .unsupported "args"
+  -- refusals outside the property's domain (result class only, mirrored)
+  | "newModule", [_, rs, cs] =>
+    match rs.toNat?, cs.toNat? with
+    | some r, some c => mirror (if r = 0 ∨ c = 0 then "err:dim" else "ok") rhs
+    | _, _ => .unsupported "args"
+  | "newAlgebra", [_, ns] =>
+    match ns.toNat? with
+    | some n => mirror (if n = 0 then "err:dim" else "ok") rhs
+    | _ => .unsupported "args"
+  | "solveRightDim", [_, ms, _, brs, bcs] =>
+    match ms.toNat?, brs.toNat?, bcs.toNat? with
+    | some m, some br, some bc =>
+      if bc ≠ 1 ∨ br ≠ m then mirror "err:dim" rhs else .unsupported "solveRightDim on matching dimensions"
+    | _, _, _ => .unsupported "args"
+  | "solveLeftDim", [_, _, ns, rrs, rcs] =>
+    match ns.toNat?, rrs.toNat?, rcs.toNat? with
+    | some n, some rr, some rc =>
+      if rr ≠ 1 ∨ rc ≠ n then mirror "err:dim" rhs else .unsupported "solveLeftDim on matching dimensions"
+    | _, _, _ => .unsupported "args"
+  | "mulDim", [_, _, ns, k2s, _] =>
+    match ns.toNat?, k2s.toNat? with
+    | some n, some k2 =>
+      if n ≠ k2 then mirror "err:dim" rhs else .unsupported "mulDim on matching dimensions"
+    | _, _ => .unsupported "args"
   | _, _ => C20Poly.handle op args rhs
 
 end BronVerif.Drive.C20
